@@ -119,7 +119,7 @@ def closure_def_of(term):
     return None
 
 
-def closure_row_columns(P, closure_id):
+def closure_row_columns(P, closure_id, stmt=None):
     """for a row-mapping closure |row| Ok(Some((row.get(i)?, ...))) or Ok((..)) or Ok(Struct{..}):
     returns (shape, {tuple index or field name: column index}, always_some: bool|None)"""
     b = P.bodies.get(closure_id)
@@ -150,8 +150,16 @@ def closure_row_columns(P, closure_id):
                 for sub in subterms(x):
                     if sub[0] == "call" and isinstance(sub[1], str) and sub[1].startswith("rusqlite::Row") and sub[1].endswith("::get"):
                         c = norm(sub[2][1])
-                        if c[0] == "const" and isinstance(c[1], int):
+                        while c[0] in ("ref", "deref"):
+                            c = norm(c[1])
+                        if c[0] == "const" and isinstance(c[1], int) and not isinstance(c[1], bool):
                             cols[f] = c[1]
+                        elif c[0] == "const" and isinstance(c[1], str) and stmt is not None and stmt.get("items"):
+                            # row.get("name"): the position of the result column with that name
+                            for k, (e_, al) in enumerate(stmt["items"]):
+                                if (al or (e_[1] if e_[0] == "col" else None)) == c[1]:
+                                    cols[f] = k
+                                    break
                         break
     return shape, cols, always_some
 
@@ -253,7 +261,7 @@ class PoolModel:
                 continue
             # the row closure must yield Some for every row (when it yields an Option at all)
             cdef = closure_def_of(qcalls[0][2][2][3]) if len(qcalls[0][2][2]) > 3 else None
-            info = closure_row_columns(P, cdef) if cdef else None
+            info = closure_row_columns(P, cdef, site.stmt) if cdef else None
             if info is not None and info[2] is False:
                 continue
             for v, tgt in cfg.switch_edges(bb):
